@@ -219,7 +219,7 @@ Qed.
 
 Theorem InvV_step s ev : InvM s -> InvV s -> InvV (step s ev).
 Proof.
-  intros [HM _] HV. destruct ev as [sums rolls tm|t| |x roll|ins outs roll hold| |r|r| | |ok| ]; cbn [step].
+  intros [HM _] HV. destruct ev as [sums rolls tm|t| |x roll|j ins outs roll hold|j|r|r| | |ok| ]; cbn [step].
   - destruct (s_p s); [exact HV|]. match goal with |- InvV (if ?c then _ else _) => destruct c end; [|exact HV].
     apply (InvV_frame s); auto.
   - destruct (s_p s) as [p|]; [|exact HV]. destruct (pc_get t p) as [|i rest]; [exact HV|].
